@@ -3,7 +3,7 @@ from pyvc.api import *
 
 M = ModuleSpec('src/pharmpy/model/statements.py', prop='C10')
 Sym = Opaque('Sym')
-Stmt = Opaque('Stmt', is_assignment=Bool, symbol=Sym)
+Stmt = Opaque('Stmt', is_assignment=Bool, symbol=Sym, is_ode=Bool)
 ExprT = Opaque('ExprT')
 
 TRUSTED = ['statements are opaque values with `is_assignment` (isinstance(.., Assignment)) and `symbol`; '
@@ -15,7 +15,8 @@ def _symbolic():
     import ast
     import z3
     from pyvc.symexec import Val, BoolV, OutOfSubset
-    from pyvc.sym import TBool, TSeq
+    from pyvc.sym import TBool, TSeq, TInt, TOption
+    from pyvc import sym
 
     @M.intrinsic('isinstance')
     def _isinstance(ex, st, args, kwargs, node):
@@ -24,6 +25,11 @@ def _symbolic():
         v = args[0]
         if name == 'Assignment' and isinstance(v, Val) and v.ty.key() == 'Stmt':
             return Val(TBool, v.ty.attr_fn('is_assignment')(v.t))
+        if name == 'CompartmentalSystem' and isinstance(v, Val) and v.ty.key() == 'Stmt':
+            return Val(TBool, v.ty.attr_fn('is_ode')(v.t))
+        if name == 'CompartmentalSystem' and isinstance(v, Val) and isinstance(v.ty, TOption) \
+                and v.ty.inner.key() == 'Stmt':
+            return Val(TBool, z3.And(v.ty.is_some(v.t), v.ty.inner.attr_fn('is_ode')(v.ty.val(v.t))))
         if name == 'str' and isinstance(v, Val) and v.ty.key() == 'Sym':
             return BoolV(False)  # the contract's `symbol` is already an Expr
         raise OutOfSubset(f'isinstance(.., {name})')
@@ -42,11 +48,58 @@ def _symbolic():
     # Expr(x) of a value that is already an expression / symbol is that value; Statements(list) is the
     # sequence of the list's elements; self._statements is the sequence self stands for
     M.intrinsics['Expr'] = lambda ex, st, args, kwargs, node: args[0]
-    M.intrinsics['Statements'] = lambda ex, st, args, kwargs, node: ex.as_seq(args[0], st)
+    def _mkstatements(ex, st, args, kwargs, node):
+        if not args:
+            ty = TSeq(stmt)
+            return Val(ty, ex.ops(st).empty(ty))
+        return ex.as_seq(args[0], st)
+
+    M.intrinsics['Statements'] = _mkstatements
 
     @M.intrinsic('attr:_statements')
     def _stmts(ex, st, args, kwargs, node):
         return args[0] if isinstance(args[0], Val) and isinstance(args[0].ty, TSeq) else NotImplemented
+
+    # ---- library model: next(map(f, filter(g, it)), default) -- the image under f of the FIRST item of `it`
+    # that satisfies g, or `default` when there is none (lazy combinators; f and g are the real lambdas of
+    # the source, applied symbolically to the generic item)
+    class _Lazy:
+        def __init__(self, kind, fn, src):
+            self.kind, self.fn, self.src = kind, fn, src
+
+    M.intrinsics['filter'] = lambda ex, st, a, kw, n: _Lazy('filter', a[0], a[1])
+    M.intrinsics['map'] = lambda ex, st, a, kw, n: _Lazy('map', a[0], a[1])
+
+    @M.intrinsic('next')
+    def _next(ex, st, args, kwargs, node):
+        m = args[0]
+        if not (isinstance(m, _Lazy) and m.kind == 'map' and isinstance(m.src, _Lazy) and m.src.kind == 'filter'
+                and len(args) == 2):
+            raise OutOfSubset('next() of anything but map(f, filter(g, iterable)) with a default')
+        f, g = m.fn, m.src.fn
+        src = ex.as_iter(m.src.src, st)
+        if src is None:
+            raise OutOfSubset('filter over unsupported iterable')
+
+        def pred(k):
+            return ex.truthy(ex.call(g, [src.item(k, st)], {}, st, node, None), st)
+
+        j = z3.Int(sym.fresh_name('first'))
+        k = z3.Int(sym.fresh_name('k'))
+        found = z3.Bool(sym.fresh_name('found'))
+        st.facts.add(z3.Implies(found, z3.And(0 <= j, j < src.n, pred(j),
+                                              z3.ForAll([k], z3.Implies(z3.And(0 <= k, k < j), z3.Not(pred(k)))))))
+        st.facts.add(z3.Implies(z3.Not(found),
+                                z3.ForAll([k], z3.Implies(z3.And(0 <= k, k < src.n), z3.Not(pred(k))))))
+        hit = ex.to_term(ex.call(f, [src.item(j, st)], {}, st, node, None), TInt, st)
+        return Val(TInt, z3.If(found, hit, ex.to_term(args[1], TInt, st)))
+
+    def _via_contract(q):
+        def h(ex, st, args, kwargs, node):
+            return ex.call_contract(ex.registry[M.path + ':Statements.' + q], list(args), kwargs, st, node, None)
+        return h
+
+    M.intrinsics['method:_get_ode_system_index'] = _via_contract('_get_ode_system_index')
 
     @M.intrinsic('method:_lookup_last_assignment')
     def _lla(ex, st, args, kwargs, node):
@@ -165,4 +218,58 @@ M.contract(
         'all(implies(not any(self[r].is_assignment and self[r].symbol == symbol for r in range(q + 1)), q < len(new) and new[q] == self[q]) for q in range(len(self)))',
         'all(implies(not any(atend(self, e).is_assignment and atend(self, e).symbol == symbol for e in range(d + 1)), d < len(new) and atend(new, d) == atend(self, d)) for d in range(len(self)))',
     ])],
+)
+
+
+# ---- the ODE system splits the statement list --------------------------------------------------------
+FIRST_ODE = ('(0 <= result < len(self) and self[result].is_ode'
+             ' and all(not self[q].is_ode for q in range(result)))')
+M.contract(
+    'Statements._get_ode_system_index',
+    params={'self': Seq(Stmt)},
+    returns=Int,
+    ensures=[
+        'implies(not any(s.is_ode for s in self), result == -1)',
+        f'implies(any(s.is_ode for s in self), {FIRST_ODE})',
+        f'result == -1 or {FIRST_ODE}',
+    ],
+)
+M.contract(
+    'Statements.ode_system',
+    params={'self': Seq(Stmt)},
+    returns=Option(Stmt),
+    ensures=[
+        'implies(not any(s.is_ode for s in self), result is None)',
+        'implies(any(s.is_ode for s in self), result is not None)',
+        # the FIRST compartmental system of the list
+        'implies(result is not None, any(self[p] == val(result) and self[p].is_ode and all(not self[q].is_ode for q in range(p))'
+        '                                for p in range(len(self))))',
+    ],
+)
+M.contract(
+    'Statements.before_odes',
+    params={'self': Seq(Stmt)},
+    returns=Seq(Stmt),
+    ensures=[
+        'implies(not any(s.is_ode for s in self), result == self)',
+        'all(not result[q].is_ode for q in range(len(result)))',
+        'len(result) <= len(self) and all(result[q] == self[q] for q in range(len(result)))',
+        # nothing in front of the ODE system is left out
+        'implies(len(result) < len(self), self[len(result)].is_ode)',
+    ],
+)
+AFTER = ['all(atend(result, d) == atend(self, d) for d in range(len(result)))',
+         'implies(any(s.is_ode for s in self), len(result) < len(self) and atend(self, len(result)).is_ode'
+         '        and all(not self[q].is_ode for q in range(len(self) - 1 - len(result))))']
+M.contract(
+    'Statements.after_odes',
+    params={'self': Seq(Stmt)},
+    returns=Seq(Stmt),
+    ensures=['implies(not any(s.is_ode for s in self), len(result) == 0)'] + AFTER,
+)
+M.contract(
+    'Statements.error',
+    params={'self': Seq(Stmt)},
+    returns=Seq(Stmt),
+    ensures=['implies(not any(s.is_ode for s in self), result == self)'] + AFTER,
 )
